@@ -30,6 +30,9 @@ FAMILIES = {
             "R": ("struct R : Base { virtual void v(); };", "struct R;", ["Base"], []),
             "Bot": ("struct Bot : L, R { char c; };", "struct Bot;", ["L", "R"], []),
             "Holder": ("struct Holder { Bot* b; L l; };", "struct Holder;", ["L"], ["Bot"]),
+            # arrays of objects with destructors / floats / vtables: the facts an array passes on (or not)
+            "Arr": ("struct Arr { Base items[2]; R rs[3]; L* pl; };", "struct Arr;", ["Base", "R"], ["L"]),
+            "HArr": ("struct HArr { Arr a; Arr* next; };", "struct HArr;", ["Arr"], []),
         }},
     # --no-recursive-allowlist: types that are used but not allowlisted are not emitted and cannot re-queue their
     # users; what their users may derive must still not depend on which user is declared first
